@@ -13,6 +13,7 @@ required; whatever is returned must multiply back to n with parts > 1).
 """
 import math, os, re, json
 from vlib.pipeline import Case
+from vlib import gen
 
 PID = "C16"
 GEN = ["params", "stage2"]
@@ -1033,6 +1034,15 @@ def oracle(case, ans):
             return "factors * rest != n"
         if any(f <= 1 for f in fs):
             return "a factor <= 1"
+        # separation: prime factors caught at DIFFERENT steps must not be returned merged — every returned
+        # part is a prime or (part of) the increment of a single step
+        gs = [math.gcd(n, v) for v in vals]
+        incs = [gs[0]] + [gs[j] // gs[j - 1] for j in range(1, len(gs))]
+        for f in fs:
+            if gen.is_prime(f):
+                continue
+            if not any(inc % f == 0 for inc in incs[1:]):
+                return f"factor {f} merges prime factors caught at different steps (step increments {[i for i in incs[1:] if i > 1][:6]})"
         return None
     if op == "s2_rho64":
         return check_split(int(a[0]), ans, pair=True)
